@@ -15,7 +15,15 @@
 #include "hc.h"
 
 #define NB 27
-#define NC 30
+#define NC 42
+/* decoy classes: user-defined class types whose NAMES extend, shorten or re-case the name of a built-in class
+   (dispatch is by exact class name) */
+struct Lenient { var f; }; struct Le { var f; }; struct Sortable { var f; }; struct So { var f; }; struct Hashes { var f; };
+struct Has { var f; }; struct C_ { var f; }; struct C_Integer { var f; }; struct Ge { var f; }; struct Getter { var f; };
+struct len { var f; }; struct SHOW { var f; };
+var Lenient = Cello(Lenient); var Le = Cello(Le); var Sortable = Cello(Sortable); var So = Cello(So); var Hashes = Cello(Hashes);
+var Has = Cello(Has); var C_ = Cello(C_); var C_Integer = Cello(C_Integer); var Ge = Cello(Ge); var Getter = Cello(Getter);
+var len_decoy = Cello(len); var SHOW = Cello(SHOW);
 static var* BT[NB]; static const char* BTN[NB];
 static var* CL[NC]; static const char* CLN[NC]; static int CLM[NC];     /* member counts */
 #define MAXRT 64
@@ -33,6 +41,9 @@ static void tables(void) {
   C_(Doc, 6) C_(Help, 1) C_(Cast, 1) C_(Size, 1) C_(Alloc, 2) C_(New, 2) C_(Copy, 1) C_(Assign, 1) C_(Swap, 1) C_(Cmp, 1)
   C_(Hash, 1) C_(Len, 1) C_(Iter, 5) C_(Push, 4) C_(Concat, 2) C_(Get, 6) C_(Sort, 1) C_(Resize, 1) C_(C_Str, 1) C_(C_Int, 1)
   C_(C_Float, 1) C_(Stream, 8) C_(Pointer, 2) C_(Call, 1) C_(Format, 2) C_(Show, 2) C_(Current, 1) C_(Start, 4) C_(Lock, 3) C_(Mark, 1)
+  C_(Lenient, 1) C_(Le, 1) C_(Sortable, 1) C_(So, 1) C_(Hashes, 1) C_(Has, 1) C_(C_, 1) C_(C_Integer, 1) C_(Ge, 1) C_(Getter, 1)
+  CL[i] = &len_decoy; CLN[i] = "len"; CLM[i] = 1; i++;
+  C_(SHOW, 1)
 #undef C_
 }
 
